@@ -9,15 +9,16 @@ SEQ_NOTE = ("single session; model checking at fan-out 3 / 5-9 keys, conformance
 SEQ_TECH = "TLA+ model checking (TLC) of YkTree + TLC trace validation of real API executions (TraceTree)"
 CONC_NOTE = ("sequentially consistent executions only (one controlled thread at a time, preemption at every hooked atomic access); bounded exploration: seeded random / "
              "PCT schedules and every single preemption of 2-thread programs over 7-10 tree-shape families, 1-2 operations per thread; exhaustive only for the fixed "
-             "3-thread programs of the models YkConc / YkConc2 / YkConc3 / YkConc4 at fan-out 3 / 5; a deadlock/livelock or tool error is 'undecided' (exit 2) except in C09")
-CONC_TECH = ("TLA+ model checking (TLC) of the hook-grain concurrent models YkConc / YkConc2 / YkConc3 / YkConc4 (all interleavings of fixed programs) + "
+             "3-thread programs of the models YkConc .. YkConc6 at fan-out 3 / 5; a deadlock/livelock or tool error is 'undecided' (exit 2) except in C09")
+CONC_TECH = ("TLA+ model checking (TLC) of the hook-grain concurrent models YkConc .. YkConc6 (all interleavings of fixed programs) + "
              "TLC step-level trace validation of the real code against them (TraceConc*) + deterministic-scheduler exploration of the real code judged by a TLC "
              "linearization search (TraceLin)")
 CLAIMED = {
     "C01": dict(cat="model_checking", ref="DESIGN.md 3.6, 3.8, 6 (C01)",
                 text="M: TLC explores all interleavings of get / put / unique put / remove at the grain of the hooked atomic accesses on one root border (YkConc), "
                      "across a root border split (YkConc2), across border deletion + collapse of the interior root (YkConc3) and across a split under an existing "
-                     "parent / interior insert / interior shift-delete / collapse racing with a new root (YkConc4): every result is a binding the key had during the call (LinOK). "
+                     "parent / interior insert / interior shift-delete / collapse racing with a new root (YkConc4), across next layers (YkConc5) and across an interior split with "
+                     "parent change under lock_parent (YkConc6): every result is a binding the key had during the call (LinOK). "
                      "S: the same programs on the real tree (fan-out 15): every logged access must be the enabled model action with the same value. "
                      "T: Real get/put/unique-put/remove calls of 2-3 threads are executed under a deterministic scheduler that preempts at every hooked atomic access "
                      "(version, permutation, slot, link, root words) on seven tree shapes (single border, full border about to split, interior levels, next layers, "
@@ -60,8 +61,8 @@ CLAIMED = {
                 note="real-time dependent (epoch period 2 ms, 4 s bound per cycle); 5-9 cycles per run", tech="TLA+ model checking (TLC) of YkLife + TLC trace validation of real lifecycle executions (TraceLife)"),
     "C09": dict(cat="model_checking", ref="DESIGN.md 3.6, 6 (C09)",
                 text="M: termination of every thread under weak fairness (TLC liveness) and LockOK / 'nothing locked at quiescence' in all interleavings of the programs of "
-                     "YkConc, YkConc2, YkConc3 (prev-lock retry loop, lock_parent, root lock) and YkConc4 (root-lock hand-over of lock_parent when the root collapses while a "
-                     "split waits for its parent). T: Every scheduler-driven run of the concurrent drivers (point operations, scans and cursors) must complete under a fair continuation: the scheduler parks threads that spin on a word until "
+                     "YkConc, YkConc2, YkConc3 (prev-lock retry loop, lock_parent, root lock), YkConc4 (root-lock hand-over of lock_parent when the root collapses while a "
+                     "split waits for its parent), YkConc5 (next layers) and YkConc6 (interior split: the parent of a border changes while its splitter waits for the old parent's lock). T: Every scheduler-driven run of the concurrent drivers (point operations, scans and cursors) must complete under a fair continuation: the scheduler parks threads that spin on a word until "
                      "somebody writes and reports 'every unfinished thread parked' (deadlock) or an exhausted step budget (livelock); at quiescence TLC checks on the dump "
                      "that no node is locked or dirty and the structure is well formed. The version-word protocol itself (mutual exclusion, termination under weak "
                      "fairness) is model checked in C17.", note=CONC_NOTE, tech=CONC_TECH),
